@@ -198,6 +198,14 @@ func (e *Engine) writeAt(st *State, p Ptr, src *smt.Term, n *smt.Term) {
 	e.setCell(st, Ptr{Obj: p.Obj, Path: p.Path}, b)
 }
 
+// havoc makes the whole byte object behind p arbitrary (over-approximation of "the library wrote
+// something into the output buffer").
+func (e *Engine) havoc(st *State, p Ptr) {
+	b, _ := e.ptrArr(st, p)
+	b.A = e.C.Var("garbage", smt.Arr(8))
+	e.setCell(st, Ptr{Obj: p.Obj, Path: p.Path}, b)
+}
+
 func sx(e *Engine, t *smt.Term) *smt.Term { return e.sext64(t) }
 
 func registerCompression(e *Engine) {
@@ -213,6 +221,9 @@ func registerCompression(e *Engine) {
 		return func(e *Engine, st *State, cc *CallCtx) (Value, bool) {
 			srcLen := sx(e, cc.Args[srcLenI].(*smt.Term))
 			dstCap := sx(e, cc.Args[dstCapI].(*smt.Term))
+			if retW == 32 && !e.branch(st, c.And(c.Sge(srcLen, e.k64(0)), c.Sge(dstCap, e.k64(0)))) {
+				return retInt(e.k64(0), retW), true // negative C int sizes: the library refuses
+			}
 			srcArr, srcOff := c.ConstArr(8, c.Const(0, 8)), e.k64(0)
 			if sp, ok := cc.Args[srcI].(Ptr); ok && !sp.IsNil() {
 				b, idx := e.ptrArr(st, sp)
@@ -251,6 +262,9 @@ func registerCompression(e *Engine) {
 		return func(e *Engine, st *State, cc *CallCtx) (Value, bool) {
 			inLen := sx(e, cc.Args[inLenI].(*smt.Term))
 			outCap := sx(e, cc.Args[outCapI].(*smt.Term))
+			if retW == 32 && !e.branch(st, c.And(c.Sge(inLen, e.k64(0)), c.Sge(outCap, e.k64(0)))) {
+				return retInt(c.Const(^uint64(0), 64), retW), true // negative C int sizes: the library refuses
+			}
 			ip, ok := cc.Args[inI].(Ptr)
 			if !ok || ip.IsNil() {
 				e.runtimePanic(st, "C library called with NULL input")
@@ -291,8 +305,7 @@ func registerCompression(e *Engine) {
 			m := e.fresh(st, "int", "garbagelen", 64)
 			e.assume(st, c.Ule(m, outCap))
 			if hasOut {
-				g := c.Var("garbage", smt.Arr(8))
-				e.writeAt(st, op, g, m)
+				e.havoc(st, op)
 			}
 			return retInt(m, retW), true
 		}
@@ -382,8 +395,7 @@ func registerCompression(e *Engine) {
 		m := e.fresh(st, "int", "garbagelen", 64)
 		e.assume(st, c.Ule(m, out.Len))
 		if outOK {
-			_, ooff, _ := e.bytesOfAny(st, out)
-			e.writeAt(st, Ptr{Obj: out.Base.Obj, Path: out.Base.Path, Idx: ooff}, c.Var("garbage", smt.Arr(8)), m)
+			e.havoc(st, Ptr{Obj: out.Base.Obj, Path: out.Base.Path})
 		}
 		return TupleV{m, IfaceV{}}, true
 	})
